@@ -358,6 +358,32 @@ func (r *Runner) execMacro(a Action) {
 			w.Mu.Unlock()
 		}
 		r.exec(Action{Op: "heal"})
+	case "inflightfault":
+		// the leader has calls in flight (its followers do not answer), then its
+		// own log store fails the next append
+		li, L := r.leader()
+		if L == nil {
+			return
+		}
+		r.exec(Action{Op: "isolate", Srv: li})
+		r.doApply(L, max(1, a.N), 0)
+		if a.Arg%2 == 1 {
+			for m := range r.ids {
+				if m != li && !r.neverStarted(m) {
+					r.doMembership(L, []string{"demote", "remove", "addvoter"}[a.Arg/2%3], m, 0)
+					break
+				}
+			}
+		}
+		w.Advance(2*time.Millisecond, r.sample)
+		w.Mu.Lock()
+		r.faults = append(r.faults, &faultSpec{srv: r.ids[li], site: "dispatchLogs", nth: 1, dec: sim.DoError})
+		w.Mu.Unlock()
+		r.feat("fault-armed")
+		r.doApply(L, 1, 0)
+		w.Advance(5*time.Millisecond, r.sample)
+		r.feat("leader-store-fails-with-calls-in-flight")
+		r.exec(Action{Op: "heal"})
 	case "snapcfg":
 		// a snapshot is requested while the state machine is busy with a burst
 		// of commands and a membership change commits behind them
